@@ -553,6 +553,8 @@ pub fn main(args: &Args) {
     // drop-during-unwind in a child process (a wrong implementation aborts the process)
     let child_depth = args.tier.pick(4usize, 5);
     unwind_sweep(&mut rep, child_depth);
+    // the drop message must not depend on the build having debug assertions
+    nodebug_drop_sweep(&mut rep, args.tier.pick(3usize, 4));
 
     rep.rule = format!(
         "every history over {} accumulator operations up to length {} (stateright BFS, one state per history), each followed by every terminal operation (finish, finish_with, into_inner, drop, inspect) on a fresh replay of the real Accumulator, compared with a Vec reference; drop-during-unwind, and every finishing operation executed from a destructor during an unrelated unwind, for every history up to length {} in a child process; non-trivial = history that records at least one error",
@@ -640,6 +642,57 @@ pub fn child(args: &Args) {
         }
     }
     println!("{}", json!({"histories": hs.len(), "finishing_probes": probes, "bad": bad}));
+}
+
+/// Drop probes only, for every history up to `depth` (run in a binary built without debug
+/// assertions).
+pub fn drop_child(args: &Args) {
+    let depth: usize = args.rest.first().and_then(|s| s.parse().ok()).unwrap_or(3);
+    std::panic::set_hook(Box::new(|_| {}));
+    let hs = all_histories(depth);
+    let mut bad = vec![];
+    for h in &hs {
+        match catch(std::panic::AssertUnwindSafe(|| probe(h, Term::Drop))) {
+            Ok(Ok(())) => {}
+            Ok(Err(m)) => bad.push(json!({"hist": h, "message": m})),
+            Err(p) => bad.push(json!({"hist": h, "message": format!("unexpected panic: {p}")})),
+        }
+        if bad.len() > 20 {
+            break;
+        }
+    }
+    println!("{}", json!({"histories": hs.len(), "debug_assertions": cfg!(debug_assertions), "bad": bad}));
+}
+
+/// Builds vcheck in the `nodebug` profile and runs the drop probes there.
+fn nodebug_drop_sweep(rep: &mut Report, depth: usize) {
+    let hd = crate::corpus::harness_dir();
+    let out = std::process::Command::new("cargo")
+        .current_dir(&hd)
+        .env("CARGO_NET_OFFLINE", "true")
+        .args(["build", "--offline", "-q", "-p", "vcheck", "--profile", "nodebug"])
+        .output()
+        .unwrap_or_else(|e| vrt::machinery(&format!("cannot run cargo: {e}")));
+    if !out.status.success() {
+        vrt::machinery(&format!("nodebug build failed:\n{}", String::from_utf8_lossy(&out.stderr).chars().take(2000).collect::<String>()));
+    }
+    let exe = hd.join("target/nodebug/vcheck");
+    let out = std::process::Command::new(&exe).args(["c05-drop-child", &depth.to_string()]).output().unwrap_or_else(|e| vrt::machinery(&format!("cannot spawn {exe:?}: {e}")));
+    if !out.status.success() {
+        vrt::machinery(&format!("nodebug drop child failed: {}", out.status));
+    }
+    let v: serde_json::Value = serde_json::from_slice(&out.stdout).unwrap_or_else(|e| vrt::machinery(&format!("nodebug child output: {e}")));
+    rep.require(v["debug_assertions"] == json!(false), "the nodebug child was built with debug assertions");
+    let n = v["histories"].as_u64().unwrap_or(0);
+    rep.tally.evaluations += n;
+    rep.tally.traces += n;
+    rep.set("drop_probes_without_debug_assertions", json!(n));
+    for b in v["bad"].as_array().cloned().unwrap_or_default() {
+        let h: Vec<Op> = serde_json::from_value(b["hist"].clone()).unwrap();
+        let mut viol = violation(&h, Some(Term::Drop), format!("built without debug assertions: {}", b["message"].as_str().unwrap_or("")));
+        viol.case["profile"] = json!("nodebug");
+        rep.tally.violate(viol);
+    }
 }
 
 fn unwind_sweep(rep: &mut Report, depth: usize) {
